@@ -9,7 +9,7 @@ CLAIM = ('Decides statically every statement doc/specs.md makes in machine-reada
          'round itself, BlakeGenerator, Argon2 parameters, dataset item constants and step order; plus the structural rules of the delegated primitives (Blake2b constants, compression skeleton and streaming counter, Argon2 fill skeleton / indexing / H0 / H-prime, SuperscalarHash tables and executor) and the rule that a cache is re-initialised whenever the key differs. What the specification states only in prose about computed values (arithmetic results, '
          'SuperscalarHash generation for a given key) is numeric and not claimed.')
 LEVEL_NOTE = 'Trusted: the specification text as oracle; clang AST; numeric behaviour of the arithmetic executors, Blake2b compression and Argon2 (their constants are checked in C10/C11).'
-EXPLANATION = 'B2-CONST/COMPRESS/UPDATE, A2-SKELETON/XOR/INDEX/H0/HPRIME, SPEC-SSTABLES, SS-EXEC, BIND-KEY (shared with C09-C11, C03), SPEC-CONFIG, SPEC-MASKS, SPEC-VMPROG, SPEC-REGFILE, SPEC-LOOP, DRV-SEQ, SPEC-FREQ/DEC-OPERANDS/MEM-LEVEL/CBR-BITS, SPEC-AESKEYS/PATTERN + AES-ROUND, SPEC-BLAKEGEN, SPEC-ARGON, SPEC-DSCONST/DS-ITEM.'
+EXPLANATION = 'B2-CONST/COMPRESS/UPDATE, A2-SKELETON/XOR/INDEX/H0/HPRIME, SPEC-SSTABLES, SS-EXEC, BIND-KEY (shared with C09-C11, C03), SPEC-CONFIG, SPEC-MASKS, SPEC-VMPROG, SPEC-REGFILE, SPEC-LOOP, DRV-SEQ, SPEC-FREQ/DEC-OPERANDS/MEM-LEVEL/CBR-BITS, SPEC-AESKEYS/PATTERN + AES-ROUND, SPEC-BLAKEGEN, SPEC-ARGON, SPEC-DSCONST/DS-ITEM. LW-SOUND/LW-SPEC and RCP-NOOP (spec 5.4.2 / 5.2.6), DS-RANGE-EVAL (spec 7.3, item number = index for every split).'
 
 
 def run(ctx, R):
@@ -24,11 +24,14 @@ def run(ctx, R):
     decode.rule_operands(ctx, R, F)
     decode.rule_cbr(ctx, R, F)
     decode.rule_cfround(ctx, R, F)
+    decode.rule_lw(ctx, R, F)       # spec 5.4.2: which instructions count as a register modification (CBRANCH targets)
+    decode.rule_rcp(ctx, R, F)      # spec 5.2.6: IMUL_RCP with a zero / power-of-two divisor is a no-op
     aes.rule_round(ctx, R, F)
     aes.rule_patterns(ctx, R, F)
     spec.rule_blakegen(ctx, R, F)
     spec.rule_argon(ctx, R, F)
     dsinit.rule_dsconst(ctx, R, F)
+    dsinit.rule_range(ctx, R, F)    # spec 7.3: the item stored at index i is the item computed for item number i, for every way of splitting the range
     # the primitives the specification delegates to other documents, and the key binding the hash depends on
     blake.rule_const(ctx, R, F)
     blake.rule_compress(ctx, R, F)
